@@ -10,10 +10,11 @@ mod util;
 use rng::Rng;
 use util::Rec;
 
-/// does this build trap on integer overflow?
+/// was vm-memory built with overflow checks?  (`unchecked_add` is a plain `+`)
 pub fn overflow_checks_on() -> bool {
-    let x = std::hint::black_box(255u8);
-    util::guarded(|| std::hint::black_box(x + std::hint::black_box(1))).is_none()
+    use vm_memory::{Address, GuestAddress};
+    let a = std::hint::black_box(GuestAddress(u64::MAX));
+    util::guarded(|| std::hint::black_box(a.unchecked_add(std::hint::black_box(1)))).is_none()
 }
 
 fn main() {
@@ -23,7 +24,7 @@ fn main() {
         std::process::exit(2);
     }
     // silence the default panic message: panics are observations here
-    std::panic::set_hook(Box::new(|_| {}));
+    if std::env::var("VMVERIF_PANICS").is_err() { std::panic::set_hook(Box::new(|_| {})); }
     let chk = overflow_checks_on();
     let mut rec = Rec::default();
     if args[1] == "replay" {
